@@ -84,6 +84,12 @@ def for_each_config(v, wd, fn):
     n = 0
     for name, exe in zip(names, exes):
         n += fn(config_executor(name, exe, wd), "[build %s] " % name)
+    # ... and under another data model: ILP32 (int, long, size_t and pointers of 32 bits), the freestanding -m32 executor
+    try:
+        n += fn(Executor(build_exec32(wd), wd), "[data model ILP32] ")
+        v.cov["data_models"] = ["LP64 (native)", "ILP32 (gcc -m32 -ffreestanding, harness/exec32.c)"]
+    except CompileError as e:
+        v.cov["data_models"] = ["LP64 (native)"]; v.cov["ilp32_note"] = "ILP32 build not possible here: " + str(e)[-300:]
     v.cov["evaluations"] += n
     v.cov.setdefault("build_configurations", ["default -O2"] + ["%s %s" % (VARIANTS[x][0], " ".join(VARIANTS[x][1])) for x in names])
     return n
@@ -678,11 +684,6 @@ def c13(v, tier, seed):
                                 tag, e["fn"], 8 * size, hexs(e["x"]), t.get("val"), t.get("img"), hexs(e["val"]), hexs(e["img"])), {"vector": e, "observed": line})
                     return len(sub_i)
                 for_each_config(v, wd, bo_in_config)
-                try:      # ... and under the ILP32 data model (long and size_t of 32 bits)
-                    v.cov["evaluations"] += bo_in_config(Executor(build_exec32(wd), wd), "[data model ILP32] ")
-                    v.cov["data_models"] = ["LP64 (native)", "ILP32 (gcc -m32 -ffreestanding, harness/exec32.c)"]
-                except CompileError as e_:
-                    v.cov["ilp32_note"] = "ILP32 build not possible here: " + str(e_)[-300:]
             outs = exs[branch].run_robust(cmds)
             for e, line in zip(res.emitted, outs):
                 t = dict(x.split("=") for x in line.split()[2:]) if line.startswith("R ok") else {}
